@@ -322,6 +322,107 @@ theorem opt_then_log_identifies_frame (lib : Str → Frame) (p : Str × DepthFwd
   refine ⟨by simp [optOptions, hlen], ?_⟩
   simp [optOptions, hidx, opt_forwards_depth p hp, hlen]
 
+/-! ### derived loggers: every history of `bind` / `patch` / `opt` from the root logger -/
+/-- GENERATED obligation: `bind` and `patch` rebuild the options with the depth slot untouched, `opt`
+puts its `depth` parameter into the depth slot; each keeps the arity -/
+theorem bind_patch_keep_depth_opt_sets_it (opts : List Int) (hlen : opts.length = 9) (d fresh : Int) :
+    (∃ o, deriveWith Gen.bindArgs d fresh opts = .ok o ∧ o.length = 9 ∧ o[1]? = opts[1]?) ∧
+    (∃ o, deriveWith Gen.patchArgs d fresh opts = .ok o ∧ o.length = 9 ∧ o[1]? = opts[1]?) ∧
+    (∃ o, deriveWith Gen.optArgs d fresh opts = .ok o ∧ o.length = 9 ∧ o[1]? = some d) := by
+  match opts, hlen with
+  | [a0, a1, a2, a3, a4, a5, a6, a7, a8], _ =>
+    refine ⟨?_, ?_, ?_⟩ <;>
+      simp [deriveWith, mapE, evalSrc, construct, Gen.bindArgs, Gen.patchArgs, Gen.optArgs, Gen.ctorSlots]
+
+
+/-- one step of a derivation history carries the depth the documentation says -/
+theorem applyDeriv_depth (fresh : Int) (opts : List Int) (d0 : Int) (hopt : OptionsWithDepth opts d0)
+    (x : Deriv) (hx : ∀ d fwd, x = .opt d fwd → fwd ∈ Gen.optPaths.map (·.2)) :
+    ∃ o, applyDeriv fresh opts x = .ok o ∧ OptionsWithDepth o (specDepth [x] d0) := by
+  obtain ⟨hlen, hd⟩ := hopt
+  cases x with
+  | bind =>
+    obtain ⟨⟨o, h1, h2, h3⟩, _, _⟩ := bind_patch_keep_depth_opt_sets_it opts hlen 0 fresh
+    exact ⟨o, h1, h2, by simpa [specDepth, hd] using h3⟩
+  | patch =>
+    obtain ⟨_, ⟨o, h1, h2, h3⟩, _⟩ := bind_patch_keep_depth_opt_sets_it opts hlen 0 fresh
+    exact ⟨o, h1, h2, by simpa [specDepth, hd] using h3⟩
+  | opt d fwd =>
+    have hmem := hx d fwd rfl
+    obtain ⟨p, hp, hp2⟩ := List.mem_map.mp hmem
+    have hfw : optDepth fwd d = d := by rw [← hp2]; exact opt_forwards_depth p hp d
+    obtain ⟨_, _, ⟨o, h1, h2, h3⟩⟩ := bind_patch_keep_depth_opt_sets_it opts hlen (optDepth fwd d) fresh
+    exact ⟨o, h1, h2, by simpa [specDepth, hfw] using h3⟩
+
+theorem specDepth_cons (x : Deriv) (xs : List Deriv) (d0 : Int) :
+    specDepth (x :: xs) d0 = specDepth xs (specDepth [x] d0) := by
+  cases x <;> simp [specDepth]
+
+/-- for EVERY history of derivations – any number of `bind`, `patch` and `opt(depth=…, <any options>)` calls in any
+order, each `opt` leaving through any return path the source has – on a logger with any well-formed options: no step
+fails and the resulting logger carries the depth of the last `opt` (the original depth when there is none) -/
+theorem derivations_carry_last_opt_depth (fresh : Int) (ds : List Deriv) (hds : PathsOfSource ds)
+    (opts : List Int) (d0 : Int) (hopt : OptionsWithDepth opts d0) :
+    ∃ o, runDerivs fresh ds opts = .ok o ∧ OptionsWithDepth o (specDepth ds d0) := by
+  induction ds generalizing opts d0 with
+  | nil => exact ⟨opts, rfl, hopt⟩
+  | cons x xs ih =>
+    obtain ⟨o1, h1, hopt1⟩ := applyDeriv_depth fresh opts d0 hopt x
+      (fun d fwd h => hds d fwd (by simp [h]))
+    obtain ⟨o, h2, hopt2⟩ := ih (fun d fwd h => hds d fwd (List.mem_cons_of_mem _ h)) o1 _ hopt1
+    refine ⟨o, ?_, by rw [specDepth_cons]; exact hopt2⟩
+    simp [runDerivs, h1, h2]
+
+/-- GENERATED obligation: the root logger `loguru.logger` is constructed with depth 0 (and with as many options as
+`_log` unpacks) -/
+theorem root_logger_depth_zero (fresh : Int) :
+    ∃ o, rootOptions fresh = .ok o ∧ OptionsWithDepth o 0 := by
+  have h : rootOptions fresh = .ok [fresh, 0, fresh, fresh, fresh, fresh, fresh, fresh, fresh] := by
+    simp [rootOptions, deriveWith, mapE, evalSrc, construct, Gen.rootArgs, Gen.ctorSlots, Gen.rootDepth]
+  exact ⟨_, h, rfl, rfl⟩
+
+/-- `loguru.logger.<any history of bind / patch / opt>.<any method>(…)`: the record identifies the frame `d` levels
+above the caller, `d` being the depth of the history's last `opt` (0 without one) – end to end from the constants of
+`loguru/__init__.py` through the regenerated derivations to `_log` -/
+theorem derived_logger_identifies_frame (lib : Str → Frame) (fresh : Int) (ds : List Deriv) (hds : PathsOfSource ds)
+    (m : MethodRow) (hm : m ∈ Gen.methods) (d : Nat) (hd : specDepth ds 0 = (d : Int))
+    (us : List Frame) (f : Frame) (hf : us[d]? = some f) (ex : Exec) :
+    ∃ o, derivedFromRoot fresh ds = .ok o ∧ logViaMethod lib m o us ex = .ok (recordOf f ex) := by
+  obtain ⟨o0, h0, hopt0⟩ := root_logger_depth_zero fresh
+  obtain ⟨o, h1, hopt1⟩ := derivations_carry_last_opt_depth fresh ds hds o0 0 hopt0
+  rw [hd] at hopt1
+  exact ⟨o, by simp [derivedFromRoot, h0, h1], frame_is_caller_plus_depth lib m hm o d hopt1 us f hf ex⟩
+
+/-- … beyond the stack the placeholders … -/
+theorem derived_logger_beyond_stack (lib : Str → Frame) (fresh : Int) (ds : List Deriv) (hds : PathsOfSource ds)
+    (m : MethodRow) (hm : m ∈ Gen.methods) (d : Nat) (hd : specDepth ds 0 = (d : Int))
+    (us : List Frame) (hbeyond : us.length ≤ d) (ex : Exec) :
+    ∃ o, derivedFromRoot fresh ds = .ok o ∧ logViaMethod lib m o us ex = .ok (placeholderRecord ex) := by
+  obtain ⟨o0, h0, hopt0⟩ := root_logger_depth_zero fresh
+  obtain ⟨o, h1, hopt1⟩ := derivations_carry_last_opt_depth fresh ds hds o0 0 hopt0
+  rw [hd] at hopt1
+  exact ⟨o, by simp [derivedFromRoot, h0, h1], beyond_stack_placeholders lib m hm o d hopt1 us hbeyond ex⟩
+
+/-- … and `catch()` taken from any derived logger (every shape of the table) identifies the frame `d` above the block's
+frame / the caller of the decorated function -/
+theorem derived_logger_catch_identifies_frame (lib : Str → Frame) (fresh : Int) (ds : List Deriv) (hds : PathsOfSource ds)
+    (w : CatchRow) (hw : w ∈ Gen.catchRows) (d : Nat) (hd : specDepth ds 0 = (d : Int))
+    (us : List Frame) (f : Frame) (hf : us[d]? = some f) (ex : Exec) :
+    ∃ o, derivedFromRoot fresh ds = .ok o ∧ logViaCatch lib w o us ex = .ok (recordOf f ex) := by
+  obtain ⟨o0, h0, hopt0⟩ := root_logger_depth_zero fresh
+  obtain ⟨o, h1, hopt1⟩ := derivations_carry_last_opt_depth fresh ds hds o0 0 hopt0
+  rw [hd] at hopt1
+  exact ⟨o, by simp [derivedFromRoot, h0, h1], catch_all_shapes lib w hw o d hopt1 us f hf ex⟩
+
+example : PathsOfSource [.bind, .opt 3 .param, .patch, .opt 1 .param, .bind] ∧
+    specDepth [.bind, .opt 3 .param, .patch, .opt 1 .param, .bind] 0 = 1 := by
+  refine ⟨?_, rfl⟩
+  intro d fwd h
+  have : fwd = .param := by
+    simp at h; rcases h with h | h <;> exact h.2
+  rw [this]; decide
+example : derivedFromRoot 7 [.bind, .opt 3 .param, .patch] = .ok [7, 3, 7, 7, 7, 7, 7, 7, 7] := by rfl
+
 /-! ### thread, process, time, elapsed; totality -/
 
 /-- whatever frame is selected (inside the stack, beyond it, even for a negative depth): the call
@@ -383,6 +484,149 @@ theorem elapsed_monotone_if_clock_monotone (start : Int) (readings : List Int)
 /-- … and it is non-negative for calls made after the module was imported -/
 theorem elapsed_nonneg (start now : Int) (h : start ≤ now) : 0 ≤ Gen.elapsed now start := by
   simp only [Gen.elapsed]; omega
+
+/-! ### the real `sys._getframe`: C `int` conversion of the index (finding F30) -/
+/-- GENERATED obligation: the handler of the `get_frame` try in `_log` covers OverflowError as well (F30) -/
+theorem overflow_handled : Gen.overflowHandled = true ∧ Gen.beyondStackHandled = true := by decide
+
+/-- inside the C `int` range the interpreter's `sys._getframe` is the mathematical one -/
+theorem getFrameC_eq_in_range (stack : List Frame) (n : Int) (h1 : cIntMin ≤ n) (h2 : n ≤ cIntMax) :
+    getFrameC stack n = getFrame stack n := by
+  unfold getFrameC
+  have : ¬ (n < cIntMin ∨ cIntMax < n) := by omega
+  simp [this]
+
+theorem selectLocalsC_eq_in_range (stack : List Frame) (depth : Int)
+    (h1 : cIntMin ≤ Gen.frameIndex depth) (h2 : Gen.frameIndex depth ≤ cIntMax) :
+    selectLocalsC stack depth = selectLocals stack depth := by
+  unfold selectLocalsC selectLocals
+  rw [getFrameC_eq_in_range stack _ h1 h2]
+  unfold getFrame
+  cases stack[(Gen.frameIndex depth).toNat]? <;> rfl
+
+/-- whenever the index handed to `sys._getframe` is a C int – in particular for every depth inside a real stack – `_log`
+with the real `sys._getframe` is the `_log` the index theorems speak about -/
+theorem logCoreC_eq_logCore_in_range (stack : List Frame) (options : List Int) (depth : Int) (ex : Exec)
+    (hopt : OptionsWithDepth options depth)
+    (h1 : cIntMin ≤ Gen.frameIndex depth) (h2 : Gen.frameIndex depth ≤ cIntMax) :
+    logCoreC stack options ex = logCore stack options ex := by
+  unfold logCoreC logCore
+  rw [unpackDepth_ok options depth hopt]
+  simp only [selectLocalsC_eq_in_range stack depth h1 h2]
+
+theorem mkRecord_placeholder (ex : Exec) : mkRecord placeholderLocals none ex = placeholderRecord ex := by
+  have h1 : basename Gen.placeholderFile = "<unknown>".toList := by decide
+  have h3 : Gen.placeholderFunction = "<unknown>".toList := by decide
+  have h4 : Gen.placeholderFile = "<unknown>".toList := by decide
+  have h5 : Gen.placeholderLine = 0 := by decide
+  simp only [mkRecord, placeholderLocals, evalLocal, Gen.recName, Gen.recFunction, Gen.recLine,
+    Gen.recModule, Gen.recFileName, Gen.recFilePath, Gen.recThreadId, Gen.recThreadName,
+    Gen.recProcessId, Gen.recProcessName, Gen.recTime, Gen.recElapsed, Gen.elapsed, h1]
+  rw [h3, h4, h5]
+  rfl
+
+/-- an index outside the C `int` range (depth ≥ 2³¹-2, or ≤ -2³¹-3): `sys._getframe` raises OverflowError before it
+looks at any frame, and `_log` answers with the placeholder record – whatever the stack -/
+theorem overflowing_depth_uses_placeholders (stack : List Frame) (options : List Int) (depth : Int) (ex : Exec)
+    (hopt : OptionsWithDepth options depth)
+    (hout : Gen.frameIndex depth < cIntMin ∨ cIntMax < Gen.frameIndex depth) :
+    logCoreC stack options ex = .ok (placeholderRecord ex) := by
+  unfold logCoreC
+  rw [unpackDepth_ok options depth hopt]
+  have hl : selectLocalsC stack depth = .ok placeholderLocals := by
+    unfold selectLocalsC getFrameC
+    simp [hout, overflow_handled.1]
+  simp only [hl, lookupName_total]
+  exact congrArg _ (mkRecord_placeholder ex)
+
+/-- `_log` with the real `sys._getframe` never fails: for EVERY stack and EVERY integer depth (2⁶³, -2⁷⁰, …) a record
+is produced whose thread / process / time are the executing context's -/
+theorem never_fails_any_integer_depth (stack : List Frame) (options : List Int) (depth : Int)
+    (hopt : OptionsWithDepth options depth) (ex : Exec) :
+    ∃ r, logCoreC stack options ex = .ok r ∧
+      r.threadId = .int ex.threadId ∧ r.threadName = .str ex.threadName ∧
+      r.processId = .int ex.processId ∧ r.processName = .str ex.processName ∧
+      r.time = .int ex.now ∧ r.elapsed = .int (ex.now - ex.start) := by
+  by_cases hout : Gen.frameIndex depth < cIntMin ∨ cIntMax < Gen.frameIndex depth
+  · exact ⟨_, overflowing_depth_uses_placeholders stack options depth ex hopt hout, rfl, rfl, rfl, rfl, rfl, rfl⟩
+  · rw [logCoreC_eq_logCore_in_range stack options depth ex hopt (by omega) (by omega)]
+    exact never_fails_and_identifies_context stack options depth hopt ex
+
+/-- every logging method, EVERY depth beyond the stack – `len(stack)`, 2³¹-3, 2³¹-2, 2⁶³, … – yields the placeholder
+record with the real `sys._getframe` (below 2³¹-2 through ValueError, from there on through OverflowError) -/
+theorem beyond_stack_placeholders_every_depth (lib : Str → Frame) (m : MethodRow) (hm : m ∈ Gen.methods)
+    (opts : List Int) (d : Nat) (hopt : OptionsWithDepth opts d)
+    (us : List Frame) (hbeyond : us.length ≤ d) (ex : Exec) :
+    logViaMethodC lib m opts us ex = .ok (placeholderRecord ex) := by
+  obtain ⟨_, _, hpres⟩ := all_methods_same_distance
+  obtain ⟨hl, hk⟩ := hpres m hm 1 opts hopt.1
+  have hopt' : OptionsWithDepth (m.opts.eval 1 opts) (d : Int) :=
+    ⟨hl, by simpa [Gen.depthIndex, hopt.2] using hk⟩
+  have hfi := (frame_constants (d : Int)).1
+  unfold logViaMethodC
+  by_cases hout : cIntMax < Gen.frameIndex (d : Int)
+  · exact overflowing_depth_uses_placeholders _ _ _ ex hopt' (Or.inr hout)
+  · rw [logCoreC_eq_logCore_in_range _ _ (d : Int) ex hopt' (by rw [hfi]; unfold cIntMin; omega) (by omega)]
+    exact beyond_stack_placeholders lib m hm opts d hopt us hbeyond ex
+
+/-- … and a frame inside a stack of realistic size (index within the C int range) is identified as before -/
+theorem frame_is_caller_plus_depth_real_getframe (lib : Str → Frame) (m : MethodRow) (hm : m ∈ Gen.methods)
+    (opts : List Int) (d : Nat) (hopt : OptionsWithDepth opts d) (hreal : (d : Int) + 2 ≤ cIntMax)
+    (us : List Frame) (f : Frame) (hf : us[d]? = some f) (ex : Exec) :
+    logViaMethodC lib m opts us ex = .ok (recordOf f ex) := by
+  obtain ⟨_, _, hpres⟩ := all_methods_same_distance
+  obtain ⟨hl, hk⟩ := hpres m hm 1 opts hopt.1
+  have hopt' : OptionsWithDepth (m.opts.eval 1 opts) (d : Int) :=
+    ⟨hl, by simpa [Gen.depthIndex, hopt.2] using hk⟩
+  have hfi := (frame_constants (d : Int)).1
+  unfold logViaMethodC
+  rw [logCoreC_eq_logCore_in_range _ _ (d : Int) ex hopt' (by rw [hfi]; unfold cIntMin; omega) (by rw [hfi]; exact hreal)]
+  exact frame_is_caller_plus_depth lib m hm opts d hopt us f hf ex
+
+/-- every catch() shape, every depth beyond the stack up to any size: placeholders (the decorator / `_frames`
+increments can push the index over 2³¹-1 as well) -/
+theorem catch_beyond_stack_placeholders_every_depth (lib : Str → Frame) (w : CatchRow) (hw : w ∈ Gen.catchRows)
+    (opts : List Int) (d : Nat) (hopt : OptionsWithDepth opts d)
+    (us : List Frame) (hbeyond : us.length ≤ d) (ex : Exec) :
+    logViaCatchC lib w opts us ex = .ok (placeholderRecord ex) := by
+  have hold := catch_beyond_stack_placeholders lib w hw opts d hopt us hbeyond ex
+  obtain ⟨hlen, hd⟩ := hopt
+  obtain ⟨hbal, hfr⟩ := catch_rows_balanced w hw
+  match opts, hlen with
+  | [a0, a1, a2, a3, a4, a5, a6, a7, a8], _ =>
+    simp at hd
+    subst hd
+    unfold logViaCatchC
+    unfold logViaCatch at hold
+    simp only [catchOptions_ok] at hold ⊢
+    have hopt' : OptionsWithDepth [1, Gen.catchDepth w.fromDecorator w.frames (d : Int), 1, a3, a4, a5, a6, a7, a8]
+        (Gen.catchDepth w.fromDecorator w.frames (d : Int)) := ⟨rfl, rfl⟩
+    have hfi := (frame_constants (Gen.catchDepth w.fromDecorator w.frames (d : Int))).1
+    have hnn : 0 ≤ Gen.catchDepth w.fromDecorator w.frames (d : Int) := by
+      rw [catchDepth_eq]; cases w.fromDecorator <;> simp <;> omega
+    by_cases hout : cIntMax < Gen.frameIndex (Gen.catchDepth w.fromDecorator w.frames (d : Int))
+    · exact overflowing_depth_uses_placeholders _ _ _ ex hopt' (Or.inr hout)
+    · rw [logCoreC_eq_logCore_in_range _ _ _ ex hopt' (by rw [hfi]; unfold cIntMin; omega) (by omega)]
+      exact hold
+
+/-- regression (finding F30, fixed by 3f4f1c9): `logger.opt(depth=2**31 - 2).<method>(…)` and `opt(depth=2**63)` yield
+the placeholder record instead of raising OverflowError – replayed on the implementation (corpus 011–013) -/
+theorem huge_depth_witness (lib : Str → Frame) (us : List Frame) (ex : Exec) :
+    ∀ m ∈ Gen.methods,
+      logViaMethodC lib m [0, 2147483646, 0, 0, 0, 0, 1, 0, 0] us ex = .ok (placeholderRecord ex) ∧
+      logViaMethodC lib m [0, 9223372036854775808, 0, 0, 0, 0, 1, 0, 0] us ex = .ok (placeholderRecord ex) := by
+  intro m hm
+  obtain ⟨_, _, hpres⟩ := all_methods_same_distance
+  constructor
+  · obtain ⟨hl, hk⟩ := hpres m hm 1 [0, 2147483646, 0, 0, 0, 0, 1, 0, 0] rfl
+    exact overflowing_depth_uses_placeholders _ _ 2147483646 ex ⟨hl, by simpa [Gen.depthIndex] using hk⟩
+      (Or.inr (by rw [(frame_constants _).1]; decide))
+  · obtain ⟨hl, hk⟩ := hpres m hm 1 [0, 9223372036854775808, 0, 0, 0, 0, 1, 0, 0] rfl
+    exact overflowing_depth_uses_placeholders _ _ 9223372036854775808 ex ⟨hl, by simpa [Gen.depthIndex] using hk⟩
+      (Or.inr (by rw [(frame_constants _).1]; decide))
+
+example : getFrameC [] 2147483648 = .error .other ∧ getFrame [] 2147483648 = .error .valueError := ⟨rfl, rfl⟩
+example : cIntMax < Gen.frameIndex 2147483646 ∧ ¬ cIntMax < Gen.frameIndex 2147483645 := by decide
 
 /-! ### what `depth` means: dropping frames -/
 
